@@ -487,3 +487,109 @@ def replay(ctx, payload):
     print("model now:", res)
     print("the case was generated by: build/bin/c19 -seed %s (same op/args); Seek/merge cases can be replayed by adding them to corpus/C19/" % payload.get("seed"))
     return 1
+
+
+# ---------------------------------------------------------------- hosted for C17
+
+def _model_exe():
+    """The extracted model does not depend on /repo: reuse build/bin/c19_model when it is newer than
+    everything it is built from (saves the ~10 s of extraction + ocamlopt in a hosted call)."""
+    exe = os.path.join(L.BIN, "c19_model")
+    srcs = [os.path.join(L.COQ, "Model/Queries.v"), os.path.join(L.COQ, "Lib/Bits.v"), os.path.join(L.COQ, "Extract/C19.v"),
+            os.path.join(L.OCAML, "c19_driver.ml"), os.path.join(L.OCAML, "kvio.ml.in")]
+    try:
+        if os.path.getmtime(exe) > max(os.path.getmtime(f) for f in srcs):
+            return exe
+    except OSError:
+        pass
+    return L.ocaml_build("c19")
+
+
+def listoffsets_cut_cases(ctx):
+    """C17's clause on the Transport's split ListOffsets (and on OffsetFetch): Client.ListOffsets over
+    several partitions / leaders through the REAL kafka.Transport against the wire-level multi-broker
+    fake of harness/cmd/c19/e2e.go, where for one, two or all leaders every ListOffsets response is
+    delivered up to byte k and the connection is then lost; k = 0, s, 2s, ... beyond the end of the
+    frame (size prefix, correlation id, throttle, topic array, topic name, partition array,
+    partition id / error, timestamp / offset, leader epoch; Split makes every sub-response carry one
+    entry, so "between entries" is between the fields of that entry).  Each call is followed by the
+    same call after the brokers answer in full again.  Client.OffsetFetch (one round trip to the
+    coordinator) is cut the same way.
+    Predicate on the implementation's own output: a partition whose sub-response was cut carries a
+    non-nil Error (or the whole call fails, when every sub-request failed) — never offsets presented
+    as valid; healthy partitions report their owners' answers; the call returns well within its
+    deadline; the following call works (fresh connections) and reports every owner's answer.  The
+    ListOffsets cases are also compared with the extracted model (failed sub-request -> Merge's
+    placeholder -> error on that partition, Model/Queries.v split_round_trip / listoffsets_client).
+    Client.Metadata is not cut here: the Transport serves it from its cache, a cut metadata response
+    is the pool's refresh path (C12)."""
+    gobin = L.go_build("c19")
+    model = _model_exe()
+    stride = 1
+    rc, out, err, dt = L.sh([gobin, "-seed", str(ctx.seed), "-subset", "cut", "-cutstride", str(stride)], timeout=600)
+    if rc != 0:
+        raise L.Fail("correspondence", "harness cmd/c19 -subset cut failed", (out[-1500:] + err[-2500:]))
+    cases = L.parse_cases(out)
+    for i, c in enumerate(cases):
+        c["id"] = str(i + 1)
+        c["line"] = c["id"] + " " + c["op"] + " " + c["args"]
+    lo = [c for c in cases if c["op"] == "lo"]
+    res = L.run_model(model, "\n".join(c["line"] for c in lo) + "\n") if lo else {}
+    failures, hist, nontrivial = [], {}, set()
+
+    def fail(c, what):
+        if len(failures) < 6:
+            failures.append(dict(layer="property", what=what, key=None,
+                                 detail=c["line"][:1200] + " -> " + c["go"][:500],
+                                 input=dict(case=c["line"], go=c["go"], model=res.get(c["id"]), seed=ctx.seed,
+                                            replay="build/bin/c19 -seed %d -subset cut -cutstride %d" % (ctx.seed, stride))))
+
+    for c in cases:
+        fs = c["feats"].split(",")
+        region = next((f for f in fs if f.startswith("cut=") or f in ("not-cut", "after-cut", "cut")), "?")
+        hist[("listoffsets-cut:" if c["op"] == "lo" else "offsetfetch-cut:") + region] = hist.get(("listoffsets-cut:" if c["op"] == "lo" else "offsetfetch-cut:") + region, 0) + 1
+        if region not in ("not-cut",):
+            nontrivial.add(c["op"] + " " + c["args"])
+        if c["op"] == "lo":
+            k = next((f for f in fs if f.startswith("k=")), "k=?")
+            where = ("the call following a cut (byte %s)" % k[2:]) if "after-cut" in fs else ("sub-response cut at byte %s [%s]" % (k[2:], region))
+            go = c["go"]
+            if "SLOW" in go:
+                fail(c, f"C17 ListOffsets after a cut sub-response: the call took more than 2 s of its 5 s deadline ({where})")
+                continue
+            try:
+                ok = lo_predicate(c["args"], go)
+            except Exception:
+                ok = False
+            if not ok:
+                q, r = (go.split(" ", 1) + [""])[:2]
+                outs = c["args"].split(" ")[2].split("~")
+                ncut = sum(o.startswith("F") for o in outs)
+                if r.startswith("E") and ncut < len(outs):
+                    what = f"the whole call failed ({r}) although {len(outs) - ncut} of {len(outs)} sub-requests were answered in full"
+                elif ncut and r.startswith("R"):
+                    what = "a partition whose sub-response was cut is reported without an Error (the placeholder offsets of Merge presented as valid), or a healthy partition does not report its owner's answer"
+                else:
+                    what = "the result does not report the owners' answers"
+                fail(c, f"C17 ListOffsets after a cut sub-response: {what} ({where})")
+            elif res.get(c["id"]) != go:
+                failures.append(dict(layer="correspondence", what="C17 ListOffsets after a cut sub-response: model and code differ although the result satisfies the predicate",
+                                     detail=json.dumps(dict(case=c["line"][:1200], go=go[:500], model=str(res.get(c["id"]))[:500])), input=None))
+        elif c["op"] == "cutof":
+            k, frame = (hz(x) for x in c["args"].split(" "))
+            first, follow = (x.split("=", 1)[1] for x in c["go"].split(" "))
+            if "SLOW" in c["go"]:
+                fail(c, f"C17 OffsetFetch after a cut response: the call took more than 2 s of its 5 s deadline (cut at byte {k} of {frame})")
+            elif k < frame and first != "err":
+                fail(c, f"C17 OffsetFetch after a cut response: the call returned {first} although only {k} of the {frame} bytes of the coordinator's response arrived")
+            elif k >= frame and first != "ok-state":
+                fail(c, f"C17 OffsetFetch after a cut response: complete response ({frame} bytes) but the call returned {first}")
+            elif follow != "ok-state":
+                fail(c, f"C17 OffsetFetch after a cut response: the following call returned {follow} instead of the coordinator's state (cut at byte {k} of {frame})")
+    for need in ("cut=size-prefix", "cut=correlation-id", "cut=topic-name", "cut=partition-id-and-error", "cut=timestamp-and-offset", "after-cut"):
+        if not any(need in c["feats"].split(",") for c in lo):
+            failures.append(dict(layer="correspondence", what=f"C17 ListOffsets after a cut sub-response: no case with {need} was run", detail="", input=None))
+    if not any("some-failed" in c["feats"] and "after-cut" not in c["feats"] for c in lo):
+        failures.append(dict(layer="correspondence", what="C17 ListOffsets after a cut sub-response: no case with a cut sub-response next to a healthy one", detail="", input=None))
+    return dict(evaluations=len(cases), distinct_nontrivial=len(nontrivial), hist=hist, failures=failures,
+                samples=[c["line"][:260] + " | " + c["go"][:160] for c in cases[:2] + cases[len(cases)//2:len(cases)//2+2]])
